@@ -1,6 +1,6 @@
 (* C01 -- Stream bytes arrive exactly, in order, with framing invisible. *)
-From WT.Model Require Import Base Varint Ids Frame Async StreamTS Wire Qpack Session Runner Emit.
-From WT.Proofs Require Import VarintP FrameP AsyncP MachineP StreamTSP WireP RunnerP.
+From WT.Model Require Import Base Varint Ids Frame Async StreamTS Wire Qpack Session Runner Emit Pipe.
+From WT.Proofs Require Import VarintP FrameP AsyncP MachineP StreamTSP WireP RunnerP PipeP.
 
 (* unidirectional: for every valid session id, every payload, every way the stream ends, the
    receiving side strips exactly the preamble the opening side emitted and hands over exactly
@@ -29,6 +29,52 @@ Proof. exact get_varint_machine_refines. Qed.
 Theorem C01_header_consumes_only_itself :
   forall h r, sheader_wf h = true -> sheader_read (sheader_write h ++ r) = (SVal h, r).
 Proof. exact sheader_read_write. Qed.
+
+(* ---- any partition into writes and reads (Model/Pipe.v: write calls, partial writes of any size, any
+   flow-control window, any arrival pattern, read buffers of any size incl. zero, finish at any point) ---- *)
+
+(* at every moment of every execution the stream's bytes are, in order: read ++ buffered ++ in flight ++ unsent *)
+Theorem C01_pipe_conservation :
+  forall w pre ops, let s := fst (prun w (pinit pre) ops) in
+    pre ++ app_writes false ops = got s ++ rbuf s ++ wire s ++ unsent s.
+Proof. exact pipe_conservation. Qed.
+
+(* what the reads returned is always a prefix of what was written *)
+Theorem C01_reads_are_a_prefix :
+  forall w pre ops, exists rest, pre ++ app_writes false ops = read_data (snd (prun w (pinit pre) ops)) ++ rest.
+Proof. exact pipe_reads_prefix. Qed.
+
+(* end-of-stream only after the sender finished and everything was read *)
+Theorem C01_eof_only_when_complete :
+  forall w pre ops, eof (fst (prun w (pinit pre) ops)) = true ->
+    read_data (snd (prun w (pinit pre) ops)) = pre ++ app_writes false ops /\
+    finished (fst (prun w (pinit pre) ops)) = true.
+Proof. exact pipe_eof_complete. Qed.
+
+(* composed with the opening path (preamble first) and the accept path (preamble stripped): the receiving
+   application is handed exactly the concatenation of the sending application's writes *)
+Theorem C01_end_to_end_uni :
+  forall w c sid ops, session_ok sid = true -> sid <= varint_max ->
+    eof (fst (prun w (pinit (emit_uni_preamble sid)) ops)) = true ->
+    uni_accept c (read_data (snd (prun w (pinit (emit_uni_preamble sid)) ops))) Fin
+    = (RHandWT sid (app_writes false ops), c).
+Proof. exact end_to_end_uni. Qed.
+Theorem C01_end_to_end_bi :
+  forall w sid ops, session_ok sid = true -> sid <= varint_max ->
+    eof (fst (prun w (pinit (emit_bi_preamble sid)) ops)) = true ->
+    bi_accept (read_data (snd (prun w (pinit (emit_bi_preamble sid)) ops))) Fin
+    = RHandWT sid (app_writes false ops).
+Proof. exact end_to_end_bi. Qed.
+
+(* the premise is satisfiable: two writes, a window of 3 bytes, partial writes, small reads, a zero-length read *)
+Example C01_pipe_example :
+  let r := prun 3 (pinit (emit_uni_preamble 8))
+             [PWrite [1; 2]; PTake 2; PWrite [3; 4; 5]; PDeliver 1; PRead 4; PTake 5; PDeliver 9; PRead 0; PRead 2;
+              PFinish; PRead 9; PTake 9; PDeliver 9; PRead 1; PTake 9; PDeliver 9; PRead 7; PTake 9; PDeliver 9; PRead 7;
+              PRead 7; PWrite [6]] in
+  eof (fst r) = true /\ read_data (snd r) = [64; 84; 8; 1; 2; 3; 4; 5] /\ app_writes false
+             [PWrite [1; 2]; PTake 2; PWrite [3; 4; 5]; PFinish; PWrite [6]] = [1; 2; 3; 4; 5].
+Proof. vm_compute. repeat split; reflexivity. Qed.
 
 Example C01_example :
   uni_accept (mkcrit true false false) (emit_uni_preamble 8 ++ [1; 2; 3]) Fin = (RHandWT 8 [1; 2; 3], mkcrit true false false) /\
